@@ -18,12 +18,18 @@ REGISTRATION = {
             "singleton thread, or read-only), no two conflicting accesses are unordered — also stated from the thread-local "
             "syntactic lockset; (2) object life cycle: a pointer found in the registry under the registry lock, or re-checked "
             "non-nil under the object's lock, is never seen torn down while that lock stays held (a reader that snapshots under "
-            "loadedMu and reads under refMu is race-free yet observes an unloaded runner: Lean witness). A go/ast+go/types "
+            "loadedMu and reads under refMu is race-free yet observes an unloaded runner: Lean witness); lifted to the static rule: "
+            "a fact table without stale reads admits no history in which a use event sees a torn-down object (stale_rule_sound, "
+            "instantiated for the tree's table); (3) spawn order: with fork events and Go's spawn semantics, two accesses exempted "
+            "by pre/post spawn tags are ordered access < fork < access in every trace (no longer a hypothesis). A go/ast+go/types "
             "translator regenerates on every run, from the working tree, one fact per read/write of the scheduler's loaded map, "
             "every runnerRef field, Server.sched, the transfer managers, blobDownload/blobUpload fields and intermediateBlobs, "
             "with the mutexes syntactically held (call-graph propagated) and, for uses of fields unload() clears, whether the "
-            "pointer is still live / re-validated; Lean re-evaluates both rules on that table by `decide`; the rule "
-            "implementations (Go vs Lean) are compared exactly on thousands of random tables per run (L1). The holder "
+            "pointer is still live / re-validated (lock wrappers, local aliases, closures run under a helper's lock and local "
+            "copies of cleared fields are followed); Lean re-evaluates both rules on that table by `decide`; the rule "
+            "implementations (Go vs Lean) are compared exactly on thousands of random tables per run (L1), and the run fails "
+            "closed when a branch of either rule never decided on a random table or the tree's table stops exercising the "
+            "branches the tie theorems rest on. The holder "
             "ordering is taken from C01's theorems for the scheduler variant extracted from the tree. An in-process server is "
             "then hammered under `go test -race` (random mix incl. failing loads and clients that go away, plus a directed "
             "ps-during-failed-load search, and a directed store-race search: a reader of a model stalled on a named pipe "
@@ -31,7 +37,8 @@ REGISTRATION = {
             "monitored for recovered panics, process crashes, /api/ps 5xx, /api/ps that never returns and torn /api/ps views.",
     "design_ref": "DESIGN.md §5 C15",
     "note": COMMON_NOTE + "Partial by nature: the theorem is about lock-granularity traces and takes the non-lock "
-            "orderings as named hypotheses (fresh-object publication, atomics/sync.Map, spawn order, close(done); the "
+            "orderings as named hypotheses (fresh-object publication, atomics/sync.Map, close(done), two accesses before the same "
+            "once-spawn; spawn order pre/post is proved from Go's fork semantics given the meaning of the tags; the "
             "holder ordering is discharged through C01's tie except for F13f); `live`/`valid`/locksets are syntactic "
             "(continuity of a hold is judged on the text); the translator is syntactic (aliasing of "
             "runner variables, accesses through pointers taken with &, state outside the property's anchors are not "
@@ -53,6 +60,8 @@ THEOREMS = [
     "OllamaVerif.Lockset.liveAt_not_cleared",
     "OllamaVerif.Lockset.validAt_not_cleared",
     "OllamaVerif.Lockset.stale_rule_sound",
+    "OllamaVerif.Lockset.desc_after_fork",
+    "OllamaVerif.Lockset.fork_tagged_pair_ordered",
     "OllamaVerif.Tie.C15.violations_exact",
     "OllamaVerif.Tie.C15.discipline_holds",
     "OllamaVerif.Tie.C15.classes_partition",
